@@ -180,9 +180,11 @@ class Ctx:
         self.obligations.append((name, kind, bool(ok), detail))
 
     # -------------------------------------------------------------- Coq
-    def coq_build(self):
-        """Full .vo build.  Returns (ok, log)."""
-        rc, out = sh([os.path.join(VERIF, "bin", "coqbuild")], timeout=3000)
+    def coq_build(self, targets=()):
+        """.vo build (full build when no targets are given; setup_cmd does the full build, a check
+        builds the property file, the check modules it evaluates and everything they depend on, so
+        that an unrelated broken file cannot fail this property's check).  Returns (ok, log)."""
+        rc, out = sh([os.path.join(VERIF, "bin", "coqbuild")] + list(targets), timeout=3000)
         return rc == 0, out
 
     def forbidden_scan(self):
@@ -199,12 +201,15 @@ class Ctx:
                         bad.append("%s:%d: %s" % (os.path.relpath(p, VERIF), i, line.strip()[:120]))
         return bad
 
-    def proofs(self, props_module=None, extra_theorems=()):
+    def proofs(self, props_module=None, extra_theorems=(), modules=()):
         """Step 1 of the verdict protocol: build, scan, Print Assumptions of every theorem in
         Props/<prop>.v.  Records one obligation per theorem.  A failure here is a broken proof
         obligation: reported as a violation with no failing input unless a later suite finds one."""
         props_module = props_module or self.prop
-        ok, log = self.coq_build()
+        targets = ["theories/Props/%s.vo" % props_module] + ["theories/%s.vo" % m for m in modules]
+        if os.environ.get("VERIF_FULL_BUILD"):
+            targets = []
+        ok, log = self.coq_build(targets)
         if not ok:
             tail = "\n".join(log.strip().split("\n")[-25:])
             failing = re.findall(r'File "\./theories/([^"]+)", line (\d+)', log)
